@@ -70,6 +70,18 @@ type stateMachine struct {
 	term  uint64
 	ch    chan interface{}
 	snaps *snapshots
+
+	// the newest configuration entry at or below index: the membership
+	// a snapshot taken at index has to be labelled with
+	config Config
+}
+
+func (fsm *stateMachine) applyConfig(e *entry) {
+	config := Config{}
+	if err := config.decode(e); err != nil {
+		panic(opError(err, "Log.Get(%d).decodeConfig", e.index))
+	}
+	fsm.config = config
 }
 
 func (fsm *stateMachine) runLoop() {
@@ -125,6 +137,8 @@ func (fsm *stateMachine) onApply(t fsmApply) {
 		}
 		if e.typ == entryUpdate {
 			fsm.Update(e.data)
+		} else if e.typ == entryConfig {
+			fsm.applyConfig(e)
 		}
 		fsm.index, fsm.term = e.index, e.term
 		verifFSMApplied(fsm, e)
@@ -141,6 +155,8 @@ func (fsm *stateMachine) onApply(t fsmApply) {
 			resp = fsm.Read(ne.cmd)
 		} else if ne.typ == entryUpdate {
 			resp = fsm.Update(ne.data)
+		} else if ne.typ == entryConfig {
+			fsm.applyConfig(ne.entry)
 		}
 		if ne.isLogEntry() {
 			fsm.index, fsm.term = ne.index, ne.term
@@ -170,9 +186,10 @@ func (fsm *stateMachine) onSnapReq(t fsmSnapReq) {
 		return
 	}
 	t.reply(fsmSnapResp{
-		index: fsm.index,
-		term:  fsm.term,
-		state: state,
+		index:  fsm.index,
+		term:   fsm.term,
+		config: fsm.config,
+		state:  state,
 	})
 }
 
@@ -185,7 +202,7 @@ func (fsm *stateMachine) onRestoreReq() error {
 	if err = fsm.Restore(bufio.NewReader(snap.file)); err != nil {
 		return opError(err, "FSM.Restore")
 	}
-	fsm.index, fsm.term = snap.meta.index, snap.meta.term
+	fsm.index, fsm.term, fsm.config = snap.meta.index, snap.meta.term, snap.meta.config
 	verifFSMRestored(fsm, snap.meta)
 	return nil
 }
@@ -248,6 +265,10 @@ func doTakeSnapshot(fsm *stateMachine, index uint64, config Config) (snapshotMet
 	}
 	resp := req.Result().(fsmSnapResp)
 	defer resp.state.Release()
+	if resp.config.isBootstrapped() {
+		// the membership as of the snapshot index, not as of the request
+		config = resp.config
+	}
 
 	// write snapshot to storage
 	sink, err := fsm.snaps.new(resp.index, resp.term, config)
@@ -334,9 +355,10 @@ type fsmSnapReq struct {
 
 // takeSnapshot() <- fsmLoop
 type fsmSnapResp struct {
-	index uint64
-	term  uint64
-	state FSMState
+	index  uint64
+	term   uint64
+	config Config
+	state  FSMState
 }
 
 // snapLoop -> raft (after snapshot taken)
